@@ -199,13 +199,18 @@ theorem window_preimageGet (n : Nat) (e : Expr) (lc : Option (Nat × Expr)) (hp 
 
 /-- **What `check_plurals` leaves as `ctx.plural_preimage`** for a catalog with one `Plural-Forms` field (no language
     known): if anything, the record of a completed 200-window over the expression the field declares. -/
-theorem preimageOfHeader_window {pf : List Char} {pre : Preimage} (h : preimageOfHeader [pf] = some pre) :
-    ∃ n e lj rj, parsePluralForms pf = .ok n e lj rj ∧
+theorem preimageOfHeader_window {tmpl : Bool} {pf : List Char} {pre : Preimage} (h : preimageOfHeader tmpl [pf] = some pre) :
+    tmpl = false ∧ ∃ n e lj rj, parsePluralForms pf = .ok n e lj rj ∧
       ∃ (hp : Bool) (ut : TagCall) (st0 st : WinState), st0.pre = [] ∧
         window n e none hp ut (List.range codomainLimit) st0 = (st, .completed) ∧ pre = st.pre := by
   unfold preimageOfHeader checkPlurals at h
   simp only [List.length_singleton, Nat.lt_irrefl, decide_false, Bool.false_eq_true, ↓reduceIte, scanMsgs,
     List.head?_cons] at h
+  cases tmpl with
+  | true => simp at h
+  | false =>
+  refine ⟨rfl, ?_⟩
+  simp only [Bool.false_eq_true, ↓reduceIte] at h
   cases hpf : parsePluralForms pf with
   | valueError => rw [hpf] at h; simp at h
   | syntaxError => rw [hpf] at h; simp at h
@@ -238,11 +243,11 @@ theorem preimageOfHeader_window {pf : List Char} {pre : Preimage} (h : preimageO
 
 /-- **C14, the window made explicit**: in a catalog whose `Plural-Forms` field is `pf`, the preimage entry of form `i` that
     `check_message` reads is the increasing list of the `n < 200` at which the declared expression evaluates to `i`. -/
-theorem preimageOfHeader_get {pf : List Char} {pre : Preimage} (h : preimageOfHeader [pf] = some pre) :
+theorem preimageOfHeader_get {tmpl : Bool} {pf : List Char} {pre : Preimage} (h : preimageOfHeader tmpl [pf] = some pre) :
     ∃ n e lj rj, parsePluralForms pf = .ok n e lj rj ∧ ∀ i : Nat,
       (∀ l, preimageGet pre i = some l → l = (List.range codomainLimit).filter (selects e i)) ∧
       (preimageGet pre i = none ↔ ∀ k, k < codomainLimit → selects e i k = false) := by
-  obtain ⟨n, e, lj, rj, hpf, hp, ut, st0, st, h0, hw, rfl⟩ := preimageOfHeader_window h
+  obtain ⟨_, n, e, lj, rj, hpf, hp, ut, st0, st, h0, hw, rfl⟩ := preimageOfHeader_window h
   exact ⟨n, e, lj, rj, hpf, fun i => window_preimageGet n e none hp ut st0 st h0 hw i⟩
 
 end I18n.FmtCheck
